@@ -26,7 +26,7 @@ mvars == <<l, m>>
 ListNotifs == {"tools", "prompts", "resources"}
 KindsOfN(n) == IF n = "resources" THEN {"resources", "templates"} ELSE {n}
 
-M0 == [off |-> {}, era |-> <<>>, closed |-> {}, names |-> <<>>, ver |-> <<>>, cv |-> <<>>,
+M0 == [off |-> {}, want |-> <<>>, era |-> <<>>, closed |-> {}, names |-> <<>>, ver |-> <<>>, cv |-> <<>>,
        chgB |-> <<>>, chgE |-> <<>>, sends |-> <<>>, acnt |-> <<>>, ucnt |-> <<>>, handled |-> <<>>,
        ent |-> <<>>, usub |-> <<>>, calls |-> <<>>, updB |-> 0, open |-> {}]
 
@@ -40,7 +40,7 @@ Fail2(inv, s, x) == PrintT(ToJson([monfail |-> inv, line |-> l, s |-> s, x |-> x
 
 MInit == l = 1 /\ m = M0 /\ MarkInit
 
-OnReset(e) == m' = [M0 EXCEPT !.off = AsSet(e.capOff)]
+OnReset(e) == m' = [M0 EXCEPT !.off = AsSet(e.capOff), !.want = e.want]
 
 OnReady(e) ==
   m' = [m EXCEPT !.names = [k \in DOMAIN e.names0 |-> <<AsSet(e.names0[k])>>],
@@ -54,10 +54,13 @@ OnConnect(e) ==
                                         IF x[1] = e.s THEN e.seq ELSE m.ent[x]]
                                 ELSE m.ent]
 
-\* the server granted these notifications to the session's subscriptions/listen request
+\* the server granted these notifications to the session's subscriptions/listen request; a matching subscription
+\* is one the client asked for (its *ListChangedHandler options) and the server acknowledged
 OnAck(e) ==
-  m' = [m EXCEPT !.ent = [x \in DOMAIN m.ent \cup {<<e.s, n>> : n \in AsSet(e.allowed)} |->
-                            IF x[1] = e.s /\ x[2] \in AsSet(e.allowed) /\ Get(m.ent, x, 0) = 0 THEN e.seq ELSE m.ent[x]]]
+  LET asked == IF e.s \in DOMAIN m.want THEN AsSet(m.want[e.s]) ELSE {}
+      granted == AsSet(e.allowed) \cap asked IN
+  m' = [m EXCEPT !.ent = [x \in DOMAIN m.ent \cup {<<e.s, n>> : n \in granted} |->
+                            IF x[1] = e.s /\ x[2] \in granted /\ Get(m.ent, x, 0) = 0 THEN e.seq ELSE m.ent[x]]]
 
 OnChangeBegin(e) == m' = [m EXCEPT !.chgB = Put(m.chgB, e.n, e.seq)]
 OnChangeEnd(e) ==
